@@ -2,5 +2,4 @@ package main
 
 import "verif/harness/common"
 
-func runC12(f *common.Flags, res *common.Result, m *mdl) { res.Rule = "not built yet" }
 func runC11(f *common.Flags, res *common.Result, m *mdl) { res.Rule = "not built yet" }
